@@ -424,6 +424,8 @@ fn to_list_or_vector(v: &Value, r: &mut Rng) -> Value {
 
 pub fn generate(family: &str, r: &mut Rng, count: usize, emit: &mut dyn FnMut(String)) {
     let reg = registry();
+    // standard-library and hand-written types outside the model's type universe (oracle only, see serde_extra.rs)
+    if family == "serde" { for _ in 0..(count / 10).max(20) { emit(format!("serx {}", r.below(1_000_000_000))); } }
     for i in 0..count {
         let e = &reg[if i < reg.len() { i } else { r.below(reg.len()) }];
         let ty = (e.ty)();
